@@ -1316,7 +1316,8 @@ int safec_vsnprintf_s(out_fct_type out, const char *funcname, char *buffer,
                              "%s: wcstombs_s for %%ls arg failed", funcname);
                     invoke_safe_str_constraint_handler(msg, buffer,
                                                        RCNEGATE(err));
-                    return err;
+                    free(p);
+                    return -(err);
                 }
 #else
                 {
